@@ -386,6 +386,13 @@ example : ∃ g g', replay (lit4 ++ [Event.claim "AAAAAA" "cut" (some 450)]) = .
 example : (replay (lit4 ++ [Event.claim "AAAAAA" "cut" (some 450)])).toOption.bind (fun g => (g.find? "AAAAAA").map fun t => (t.st, t.claimedBy))
     = some (.todo, "cut") := by decide
 
+/-! the order of the lines, not their stamps: lit5 (A claimed by ag-1 at 500) with the claim and the state stamped in the year dot (1) — the same graph up to clock readings -/
+def lit5skew : List Event := lit4 ++ [.claim "AAAAAA" "ag-1" (some 1), .state "AAAAAA" .doing (some 1)]
+theorem same45 : SameLines lit5 lit5skew :=
+  .cons id (.cons id (.cons id (.cons id (.cons (fun _ => 1) (.cons (fun _ => 1) .nil)))))
+example : (replay lit5).map Graph.untimed = (replay lit5skew).map Graph.untimed := C12_replay_ignores_stamp_values same45
+example : ∃ g', replay lit5skew = .ok g' := stamp_free_ok same45 (replay_eq_raw raw5 inv5.ok)
+
 /-! C06 -/
 example : ∃ g, replay demoLog = .ok g ∧ Inv06 g := C06_inv_reach demoLog demo_reach
 example : TaskInv tB1 := inv11.i06 tB1 (by decide)
